@@ -7,7 +7,9 @@ Generated into lean/QExPy/Generated/Settings.lean:
                        list of strings accepted by `x in [...]`
   * `initCfg`        — the dict literal of `Settings.__init__`   (state of a fresh session)
   * `resetCfg`       — the assignments of `Settings.reset` applied to an arbitrary state
-  * `tempRestoreInFinally` — does `use_mc_sample_size` restore the saved size in a `finally:`?
+  * `tempRestores`   — after which outcomes of the wrapped function (returned / raised a class
+                       derived from Exception / raised any other BaseException) does
+                       `use_mc_sample_size` write the saved size back?
 Anything outside the recognised shapes is reported as broken (the model then has placeholders).
 """
 import ast
@@ -387,7 +389,11 @@ class Tr:
                     and isinstance(s.value.func, ast.Name) and len(s.targets) == 1
                     and isinstance(s.targets[0], ast.Name))
 
-        if len(body) < 4:
+        def is_run_return(s):
+            return (isinstance(s, ast.Return) and isinstance(s.value, ast.Call)
+                    and isinstance(s.value.func, ast.Name))
+
+        if len(body) < 3:
             raise bad
         s0 = body[0]
         if not (isinstance(s0, ast.Assign) and isinstance(s0.targets[0], ast.Name)
@@ -398,20 +404,51 @@ class Tr:
         if not is_set(body[1], size_arg):
             raise bad
         rest = body[2:]
+        # which outcomes of the wrapped function are followed by the restore:
+        #   returned: True/False;  raised: "true" (every class), "isExc" (classes derived from
+        #   Exception only), "false" (none)
         if isinstance(rest[0], ast.Try):
             tr = rest[0]
-            if tr.handlers or tr.orelse or len(tr.body) != 1 or not is_run(tr.body[0]) or \
-                    len(tr.finalbody) != 1 or not is_set(tr.finalbody[0], saved):
+            if tr.orelse or len(tr.body) != 1:
                 raise bad
-            res, in_finally, tail = tr.body[0].targets[0].id, True, rest[1:]
+            if not tr.handlers:
+                # try: run  finally: restore
+                if len(tr.finalbody) != 1 or not is_set(tr.finalbody[0], saved):
+                    raise bad
+                if is_run_return(tr.body[0]) and len(rest) == 1:     # try: return f(..) finally: ..
+                    return {"returned": True, "raised": "true"}
+                if not is_run(tr.body[0]):
+                    raise bad
+                res, tail = tr.body[0].targets[0].id, rest[1:]
+                shape = {"returned": True, "raised": "true"}
+            else:
+                # try: run  except <C>: restore; raise   [restore]  return
+                if tr.finalbody or len(tr.handlers) != 1 or not is_run(tr.body[0]):
+                    raise bad
+                h = tr.handlers[0]
+                if h.type is None or (isinstance(h.type, ast.Name) and h.type.id == "BaseException"):
+                    raised = "true"
+                elif isinstance(h.type, ast.Name) and h.type.id == "Exception":
+                    raised = "isExc"
+                else:
+                    raise bad
+                if len(h.body) != 2 or not is_set(h.body[0], saved) or not (
+                        isinstance(h.body[1], ast.Raise) and h.body[1].exc is None):
+                    raise bad
+                res, tail = tr.body[0].targets[0].id, rest[1:]
+                if tail and is_set(tail[0], saved):
+                    shape, tail = {"returned": True, "raised": raised}, tail[1:]
+                else:
+                    shape = {"returned": False, "raised": raised}
         else:
             if len(rest) < 3 or not is_run(rest[0]) or not is_set(rest[1], saved):
                 raise bad
-            res, in_finally, tail = rest[0].targets[0].id, False, rest[2:]
+            res, tail = rest[0].targets[0].id, rest[2:]
+            shape = {"returned": True, "raised": "false"}
         if len(tail) != 1 or not (isinstance(tail[0], ast.Return) and isinstance(tail[0].value, ast.Name)
                                   and tail[0].value.id == res):
             raise bad
-        return in_finally
+        return shape
 
 
 def sig_figs_method(tr, which):
@@ -457,7 +494,7 @@ def gen():
     setters = {}
     ints = {"sigValLower": 0, "mcSizeLower": 0}
     plot = (2, 0, True)
-    in_finally = False
+    shape = {"returned": False, "raised": "false"}
     try:
         cls = tr.settings_class()
         try:
@@ -487,7 +524,7 @@ def gen():
     except Unsupported as e:
         tr.broken.append(str(e))
     try:
-        in_finally = tr.temp_wrapper()
+        shape = tr.temp_wrapper()
     except Unsupported as e:
         tr.broken.append(str(e))
     sig_modes = {"value": "", "error": ""}
@@ -567,8 +604,12 @@ def initCfg : Cfg := {{ {init} }}
 /-- `Settings.reset`: its assignments applied to an arbitrary state -/
 def resetCfg (c : Cfg) : Cfg := {reset}
 
-/-- `use_mc_sample_size`: the saved size is restored in a `finally:` block -/
-def tempRestoreInFinally : Bool := {fin}
+/-- `use_mc_sample_size`: is the saved size written back when the wrapped function ends this
+    way?  (`finally:` = every outcome; `except Exception:` = a return and the classes derived from
+    `Exception`; no `try` = a return only) -/
+def tempRestores : Outcome → Bool
+  | .returned => {tret}
+  | .raised _ {tvar} => {traised}
 
 end QExPy.Settings.Gen
 """.format(path=PATH, broken=lean_strlist(tr.broken),
@@ -576,7 +617,8 @@ end QExPy.Settings.Gen
            sc=arm(lambda own: "." + ENUMS[own], lambda s: "." + ENUMS[s[0]]),
            sv=arm(lambda own: "." + ENUMS[own], lambda s: "." + ENUMS[s[1]]),
            ss=arm(lambda own: "[]", lambda s: lean_strlist(s[2])),
-           init=init_txt, reset=reset_def, fin="true" if in_finally else "false",
+           init=init_txt, reset=reset_def, tret="true" if shape["returned"] else "false",
+           tvar="isExc" if shape["raised"] == "isExc" else "_", traised=shape["raised"],
            sfv=lean_str(sig_modes["value"]), sfe=lean_str(sig_modes["error"]),
            svl="({})".format(ints["sigValLower"]), mcl="({})".format(ints["mcSizeLower"]),
            plen=plot[0], plow="({})".format(plot[1]), pnan="true" if plot[2] else "false")
